@@ -278,6 +278,8 @@ func (r *Report) writeEvidence() {
 				assume["callee without contract havocked by static footprint: "+strings.TrimPrefix(l, "havoc:")] = true
 			case strings.HasPrefix(l, "invoke:"):
 				assume["interface call havocked: "+strings.TrimPrefix(l, "invoke:")] = true
+			case strings.HasPrefix(l, "assume-after:"):
+				assume["assumption of the caller about a call's result: "+strings.TrimPrefix(l, "assume-after:")] = true
 			case strings.HasPrefix(l, "stable-across:"):
 				assume["frame assumption of the caller (callee does not modify these objects): "+strings.TrimPrefix(l, "stable-across:")] = true
 			case l == "dynamic-call":
